@@ -60,6 +60,13 @@ pub enum Error {
     /// missing abstract syntax to begin negotiation
     MissingAbstractSyntax { backtrace: Backtrace },
 
+    /// too many presentation contexts to propose
+    /// (presentation context identifiers are odd numbers between 1 and 255,
+    /// so no more than 128 can be proposed)
+    #[snafu(display("too many presentation contexts proposed ({count}, at most 128 are possible)"))]
+    #[non_exhaustive]
+    TooManyPresentationContexts { count: usize, backtrace: Backtrace },
+
     /// could not convert to socket address
     ToAddress {
         source: std::io::Error,
